@@ -53,6 +53,12 @@ impl Database {
         }
     }
 
+    /// Verification access to the catalog and the storage of this database.
+    #[cfg(feature = "verif")]
+    pub fn verif_parts(&self) -> (RootCatalogRef, StorageImpl) {
+        (self.catalog.clone(), self.storage.clone())
+    }
+
     pub async fn shutdown(&self) -> Result<(), Error> {
         if let StorageImpl::SecondaryStorage(storage) = &self.storage {
             storage.shutdown().await?;
